@@ -129,6 +129,7 @@ def run(ctx):
         UB = sym_array("UB_matrix", (3, 3))
         Q = sym_array("Q", (3, 3))
         R = sym_array("R", (3, 3))
+        special = []        # data-dependent tests other than the sign tests: fast paths / early returns
         for pattern in itertools.product((False, True), repeat=3):
             tests = []
 
@@ -147,6 +148,18 @@ def run(ctx):
                     # the diagonal entry may already have been negated by its own block: -R[k,k] cannot occur before its test
                     raise AnalysisError("ub_to_u_b: sign test on `%s`, not on a diagonal entry of the triangular factor"
                                         % core.unparse(test.left))
+                # any other data-dependent test: the generic configuration does not satisfy it; the special arm is
+                # analysed separately below
+                if not isinstance(test, ast.Attribute):
+                    try:
+                        v_ = ev.eval(test, env)
+                        if isinstance(v_, bool):
+                            return None
+                    except AnalysisError:
+                        pass
+                    if ast.dump(test) not in [ast.dump(t_) for t_ in special]:
+                        special.append(test)
+                    return False
                 return None
             ev = Evaluator(mod, inline=set(), branch_policy=bpol)
             qr_args = []
@@ -184,10 +197,32 @@ def run(ctx):
                       % ["-" if p else "+" for p in pattern], where,
                       sample={"pattern": ["-" if p else "+" for p in pattern], "U[0,0]": N.short(fu[0]), "B[0,1]": N.short(fb[1])}
                       if pattern == (True, False, True) else None)
+        # special arms (fast paths): whatever they return must still have a provably positive diagonal in B
+        for st_ in special:
+            def spol(test, ev, env, st_=st_):
+                if N.skip_checks_policy(test, ev, env) is False:
+                    return False
+                if ast.dump(test) == ast.dump(st_):
+                    return True
+                return None
+            ev = Evaluator(mod, inline=set(), branch_policy=spol)
+            try:
+                out = ev.call_function("ub_to_u_b", [UB])
+                (fu, _s1), (fb, _s2) = flat(out[0]), flat(out[1])
+                pos = all(N.positive_under(fb[4 * k], {a_ for a_ in fb[4 * k].atoms() if a_.startswith("abs(")}) for k in range(3))
+                msg = "B diagonal %s" % [N.short(fb[4 * k], 40) for k in range(3)]
+            except (AnalysisError, TypeError, IndexError) as e:
+                pos, msg = False, "arm not analysable: %s" % e
+            ctx.check(pos, "C02:qr:%s.fast-path" % short,
+                      "on the path taken when `%s` holds, ub_to_u_b returns without establishing a positive diagonal of B (%s): "
+                      "an upper-triangular UB with a negative diagonal entry (e.g. U = diag(1,-1,-1)) is returned as (I, UB)"
+                      % (core.unparse(st_)[:60], msg), core.loc(mod, st_))
     ctx.not_decided += ["accuracy and conditioning of numpy's qr and inv", "the round trip itself is a paper step from these "
                         "shapes: with UBI = tau inv(U B), B.UBI = tau U' and UBI.UBI' = tau^2 inv(B'B) = G (C01)"]
     ctx.assumptions += ["numpy.linalg.qr returns Q orthogonal and R upper triangular with Q R = the argument",
                         "C01 (B is the triangular factor of the reciprocal metric) and C20 (guard sites)"]
+    from xfabsa import numeric as _N2
+    _N2.hazard_rule(ctx, 'C02')
     return ("The five UBI conversions of both modules are evaluated by E3 with opaque callees and compared with the matrix "
             "expressions the property states, including where the factor tau sits and that the rows of UBI are handed to "
             "a_to_cell as columns; the sign normalisation after QR is verified on all eight sign patterns to produce "
